@@ -193,7 +193,38 @@ pub fn check(prop: &str, tier: Tier, args: &[String]) -> i32 {
 
     let next = Arc::new(AtomicU64::new(0));
     let agg = Arc::new(Mutex::new(Agg { evaluations: 0, nontrivial: BTreeSet::new(), sums: BTreeMap::new(), probes: BTreeMap::new(), faults: BTreeMap::new(), kinds: BTreeMap::new(), violations: vec![], others: BTreeMap::new(), harness: vec![], samples: vec![], sched_kinds: BTreeMap::new() }));
-    let timeouts = Arc::new(Mutex::new(Vec::<u64>::new()));
+    let timeouts = Arc::new(Mutex::new(Vec::<(u64, Scenario)>::new()));
+    // Regression corpus: the replay files of every finding recorded for this property (all
+    // repaired by now) run first; a fixed entry suppresses nothing, so a defect that returns is
+    // reported like any other violation.
+    let mut corpus: Vec<(String, Scenario)> = Vec::new();
+    let mut corpus_skipped = 0u64;
+    if let Ok(rd) = std::fs::read_dir(verif_root().join("findings")) {
+        let mut files: Vec<PathBuf> = rd.filter_map(|e| e.ok().map(|e| e.path())).filter(|p| p.extension().map_or(false, |x| x == "json")).collect();
+        files.sort();
+        for f in files {
+            let Some(doc) = std::fs::read_to_string(&f).ok().and_then(|s| serde_json::from_str::<serde_json::Value>(&s).ok()) else { corpus_skipped += 1; continue };
+            if doc["property"].as_str() != Some(prop) { continue; }
+            match serde_json::from_value::<Scenario>(doc["scenario"].clone()) { Ok(sc) => corpus.push((f.file_name().unwrap().to_string_lossy().to_string(), sc)), Err(_) => corpus_skipped += 1 }
+        }
+    }
+    let corpus_n = corpus.len() as u64;
+    {
+        let corpus = Arc::new(Mutex::new(corpus));
+        let mut hs = vec![];
+        for w in 0..jobs.min(corpus_n as usize) {
+            let (corpus, agg, timeouts, prop) = (corpus.clone(), agg.clone(), timeouts.clone(), prop.to_string());
+            hs.push(std::thread::spawn(move || loop {
+                let Some((name, sc)) = corpus.lock().unwrap().pop() else { break };
+                match run_scenario_child(&sc, &format!("corpus{w}"), run_timeout) {
+                    ChildOut::Report(r) => add(&mut agg.lock().unwrap(), &prop, sc.run_seed, &sc, &r),
+                    ChildOut::Abort(msg) => { let mut a = agg.lock().unwrap(); a.evaluations += 1; a.violations.push((sc.clone(), Violation { property: prop.clone(), class: "process-abort".into(), detail: format!("{name}: {msg}"), step: None })); }
+                    ChildOut::Timeout => timeouts.lock().unwrap().push((sc.run_seed, sc.clone())),
+                }
+            }));
+        }
+        for h in hs { h.join().unwrap(); }
+    }
     let mut handles = vec![];
     for _ in 0..jobs {
         let (next, agg, timeouts, prop) = (next.clone(), agg.clone(), timeouts.clone(), prop.to_string());
@@ -215,7 +246,7 @@ pub fn check(prop: &str, tier: Tier, args: &[String]) -> i32 {
                         crate::props::expand(&base, &r, tier)
                     }
                     ChildOut::Abort(msg) => { let mut a = agg.lock().unwrap(); a.evaluations += 1; a.violations.push((dry.clone(), Violation { property: prop.clone(), class: "process-abort".into(), detail: msg, step: None })); continue; }
-                    ChildOut::Timeout => { timeouts.lock().unwrap().push(run_seed); continue; }
+                    ChildOut::Timeout => { timeouts.lock().unwrap().push((run_seed, dry.clone())); continue; }
                 }
             } else { vec![base] };
             for (j, scen) in scens.iter().enumerate() {
@@ -228,26 +259,36 @@ pub fn check(prop: &str, tier: Tier, args: &[String]) -> i32 {
                     a.evaluations += 1;
                     a.violations.push((scen.clone(), v));
                 }
-                ChildOut::Timeout => {
-                    // C14 and C15 state "never a hang" / "no interleaving deadlocks": a run that does
-                    // not finish within the wall-clock limit (hundreds of times its normal duration,
-                    // not detected by the scheduler's deadlock / step-cap detectors, i.e. a loop
-                    // without any synchronisation inside nomt) is a violation there; elsewhere it
-                    // is a harness error.
-                    if prop == "C14" || prop == "C15" {
-                        let v = Violation { property: prop.clone(), class: "hang-timeout".into(), detail: format!("the run did not finish within {} s", run_timeout.as_secs()), step: None };
-                        let mut a = agg.lock().unwrap();
-                        a.evaluations += 1;
-                        a.violations.push((scen.clone(), v));
-                    } else { timeouts.lock().unwrap().push(run_seed) }
-                }
+                ChildOut::Timeout => { timeouts.lock().unwrap().push((run_seed, scen.clone())); }
             }
             }
         }));
     }
     for h in handles { h.join().unwrap(); }
+    // Runs that exceeded the wall-clock limit while 16 ran side by side (a loaded machine can do
+    // that to a heavy scenario) are run again one at a time with three times the limit. Only a
+    // run that still does not finish counts: C14 and C15 state "never a hang" / "no interleaving
+    // deadlocks", so there it is a violation (a loop without any synchronisation inside nomt,
+    // invisible to the scheduler's deadlock and step-cap detectors); elsewhere it is a harness error.
+    let slow = timeouts.lock().unwrap().clone();
+    let mut timeouts: Vec<u64> = Vec::new();
+    let mut slow_runs = 0u64;
+    for (k, (run_seed, scen)) in slow.iter().enumerate() {
+        if k >= 8 { timeouts.push(*run_seed); continue; }
+        match run_scenario_child(scen, &format!("slow{k}"), run_timeout * 3) {
+            ChildOut::Report(r) => { slow_runs += 1; add(&mut agg.lock().unwrap(), prop, *run_seed, scen, &r); }
+            ChildOut::Abort(msg) => { let mut a = agg.lock().unwrap(); a.evaluations += 1; a.violations.push((scen.clone(), Violation { property: prop.to_string(), class: "process-abort".into(), detail: msg, step: None })); }
+            ChildOut::Timeout => {
+                if prop == "C14" || prop == "C15" {
+                    let v = Violation { property: prop.to_string(), class: "hang-timeout".into(), detail: format!("the run did not finish within {} s (run alone)", run_timeout.as_secs() * 3), step: None };
+                    let mut a = agg.lock().unwrap();
+                    a.evaluations += 1;
+                    a.violations.push((scen.clone(), v));
+                } else { timeouts.push(*run_seed); }
+            }
+        }
+    }
     let mut agg = Arc::try_unwrap(agg).ok().unwrap().into_inner().unwrap();
-    let timeouts = timeouts.lock().unwrap().clone();
 
     // --- triage ---
     let known = load_known();
@@ -298,6 +339,8 @@ pub fn check(prop: &str, tier: Tier, args: &[String]) -> i32 {
             "known_findings_seen": known_hits,
             "observations_tagged_to_other_properties": agg.others,
             "timeouts": timeouts.len(),
+            "slow_runs_repeated_alone": slow_runs,
+            "regression_corpus": { "replayed": corpus_n, "unreadable": corpus_skipped, "source": "findings/*.json of this property" },
             "real_vs_stub": { "real": "all of nomt and nomt-core (beatree, bitbox, merkle, rollback, seglog, overlay, store, sync, recovery, page cache, IoKind::get_result, Fsyncer logic, flock)", "stub": "io_uring ring loop (replaced by a pread/pwrite worker under the scheduler); parking_lot, crossbeam(-channel), threadpool, thread_local (shims over shuttle's Mutex/Condvar/thread); O_DIRECT off (tmpfs)" },
         },
         "assumptions": [
